@@ -19,8 +19,12 @@ Proved here
 * `release_uncached_closes`, `evict_idle_closes`, `evict_busy_keeps_open` — the single life-cycle steps;
 * `lock_discipline`, `knobs_sane` — regenerated facts.
 
-Not proved (kept as `def … : Prop`, exercised by the harness only): `C15_unproved_rest` — the sweeps never reach the
-model's nil-dereference branches, `close()` is called exactly once per dead cursor.
+* `never_panics`, `sweeps_never_nil`, `map_size_eq_ring_length`, `close_called_exactly_once` — same reachable states;
+* `get_refines_split`, `get_parts_well_formed` — the composite `GetOrCreate` step is the run of its split parts, so
+  well-formed traces may mix composite gets with split steps.
+
+Nothing of the safety part of the property is left unproved in the model; not stated here: liveness (that the sweeper
+runs and an idle cursor is therefore eventually closed) and `provider.Shutdown` (closes nothing; see design note).
 -/
 namespace Logrange.Props.C15
 open Logrange.Provider Logrange.Ring
@@ -223,7 +227,8 @@ steps (lookup / create / insert / release / age / sweepByTime / sweepBySize of a
 arbitrarily) with **no hypothesis on ids**: ids and new ids are arbitrary, the same id may be in flight many times and
 may be re-used while a cursor built under it is still held. Well-formedness (`WF`, `wfLabel`) is only the client
 protocol: a created cursor object is fresh, `insert c` follows a `create` of a still held, not yet cached `c`,
-`release c` is called for held cursors only; the composite `.get` label is excluded (its parts are the split steps).
+`release c` is called for held cursors only; the composite `.get` label needs a fresh cursor object (it is the run
+of its split parts, `get_refines_split`).
 The shape of the code enters through the regenerated facts, so a regression of either fact breaks these theorems. -/
 
 theorem code_shape : Logrange.Generated.C15.insertChecksExisting = true ∧
@@ -239,10 +244,12 @@ def Reachable (s : St) : Prop :=
     s = run Logrange.Generated.C15.insertChecksExisting Logrange.Generated.C15.releaseLooksUpById
           (init maxCurs idleTo busyTo) tr
 
-theorem reachable_J {s : St} (h : Reachable s) : J s := by
+theorem reachable_K {s : St} (h : Reachable s) : K s := by
   obtain ⟨m, i, b, tr, wf, rfl⟩ := h
   rw [code_shape.1, code_shape.2]
-  exact J_run tr (J_init m i b) wf
+  exact K_run tr (K_init m i b) wf
+
+theorem reachable_J {s : St} (h : Reachable s) : J s := (reachable_K h).j
 
 /-- Every cursor whose life has ended had its partitions released exactly once, and a cursor that is still held by
     a request or cached has not been closed (never closed while in use, never pinned after its end). -/
@@ -289,12 +296,66 @@ example : let s := run true false (init 3 60 300) mixedTrace
     (s.cursors 1).closed = 1 ∧ (s.cursors 2).closed = 1 ∧ (s.cursors 3).closed = 1 ∧ s.ring = [] ∧ s.panicked = false := by
   decide
 
-/-! ## not proved -/
+/-! ## nothing panics; `close()` is called exactly once -/
 
-/-- NOT proved (tested by the harness only): the sweeps never take the nil-dereference branches of the model
-    (`panicked` stays false in reachable states) and `close()` is called exactly once per dead cursor
-    (`closed_exactly_once_at_end` counts released partitions; `close()` is idempotent). -/
-def C15_unproved_rest : Prop :=
-  ∀ s, Reachable s → s.panicked = false ∧ ∀ c, Dead s c → (s.cursors c).closeCalls = 1
+/-- No reachable state has panicked: `Release` of a held cursor never hits "releasing cursor, which is not busy", and
+    neither sweep nor the first locked section ever dereferences a nil cursor or an empty ring (the model's
+    `panicked` flag is set exactly in those branches). Rests on the map and the ring having the same size, on
+    `Prev()` staying inside the ring, and on the walk of `sweepByTime` (with the `Next()`-returns-prev quirk) making
+    at most `len(p.curs)` rounds. -/
+theorem never_panics {s : St} (h : Reachable s) : s.panicked = false := (reachable_K h).r.np
+
+/-- the id map and the busy ring have the same number of entries -/
+theorem map_size_eq_ring_length {s : St} (h : Reachable s) : s.curs.size = s.ring.length := (reachable_K h).r.sz
+
+/-- in particular one more pass of either sweep from a reachable state does not panic -/
+theorem sweeps_never_nil {s : St} (h : Reachable s) :
+    (sweepByTime s).panicked = false ∧ (sweepBySize s).panicked = false :=
+  ⟨(K_sweepByTime (reachable_K h)).r.np, (K_sweepBySizeLoop _ (reachable_K h)).r.np⟩
+
+/-- `close()` is called at most once on every cursor object; exactly once on a cursor that was handed to a request
+    and whose life has ended; not at all on a cursor that is still held or cached. (`handed = false` marks the record
+    of a failed `newCursor`, whose journals `releaseJournals` gives back without there ever being a cursor.) -/
+theorem close_called_exactly_once {s : St} (h : Reachable s) (c : Nat) :
+    (s.cursors c).closeCalls ≤ 1 ∧
+    (Dead s c → (s.cursors c).handed = true → (s.cursors c).closeCalls = 1) ∧
+    ((s.cursors c).acquired = 1 → ((s.cursors c).held = true ∨ ∃ e ∈ s.ring, (s.holders e).cur = some c) →
+      (s.cursors c).closeCalls = 0) := by
+  have k := reachable_K h
+  have m := k.r.m c
+  have ce := closed_exactly_once_at_end h c
+  refine ⟨m.1, ?_, ?_⟩
+  · intro hd hh; exact m.2.2 hh (ce.1 hd)
+  · intro ha hl; exact closeCalls0 k.r.m (ce.2 ha hl)
+
+/-! ## the composite `GetOrCreate` is the sequence of its three parts -/
+
+/-- For all arguments and both code shapes, the composite `get` step equals the run of its split parts
+    (`[lookup]`, `[lookup, create]` or `[lookup, create, insert]`, see `getParts`). -/
+theorem get_refines_split (chk byId : Bool) (s : St) (id q p : Nat) (ok : Bool) (k : CreateKind) (cache : Bool) (c n : Nat) :
+    run chk byId s (getParts s id q p ok k cache c n) = stepL chk byId s (.get id q p ok k cache c n) :=
+  Logrange.Provider.get_refines_split chk byId s id q p ok k cache c n
+
+/-- …and the parts of a well-formed `get` (fresh cursor object) in a reachable state are a well-formed trace of
+    split steps — so every `Reachable`-based theorem covers traces that mix composite gets with split steps. -/
+theorem get_parts_well_formed {s : St} (h : Reachable s) (id q p : Nat) (ok : Bool) (k : CreateKind) (cache : Bool)
+    (c n : Nat) (hfresh : (s.cursors c).acquired = 0) :
+    WF s (getParts s id q p ok k cache c n) ∧ ∀ l ∈ getParts s id q p ok k cache c n, l.isSplit = true :=
+  ⟨get_parts_wf (reachable_J h) id q p ok k cache c n hfresh, getParts_split s id q p ok k cache c n⟩
+
+/-- non-vacuity: composite gets mixed with split steps; `maxCurs = 1`, so `sweepBySize` evicts first a busy cursor
+    (1, later closed by its own release) and then an idle one (2, closed by the sweep); a position error; a refused get;
+    a hit; an idle expiry. Every dead handed cursor ends with `closed = 1`, `closeCalls = 1`; nothing panics. -/
+def sizeTrace : List Label :=
+  [.get 0 0 0 false .ok true 1 7, .get 0 0 0 false .ok true 2 8, .sweepS, .release 2 2,
+   .get 0 0 0 false .ok true 3 9, .sweepS, .release 1 2, .get 0 0 1 false .posErr true 4 10,
+   .lookup 8 0 0 false, .get 9 0 0 true .ok true 5 0, .release 3 2, .lookup 9 0 2 true, .release 3 2, .age 61, .sweepT]
+example : WF (init 1 60 300) sizeTrace := by
+  simp only [sizeTrace, WF, wfLabel]; decide
+example : let s := run true false (init 1 60 300) sizeTrace
+    ((s.cursors 1).closed, (s.cursors 1).closeCalls) = (1, 1) ∧ ((s.cursors 2).closed, (s.cursors 2).closeCalls) = (1, 1) ∧
+    ((s.cursors 3).closed, (s.cursors 3).closeCalls) = (1, 1) ∧ ((s.cursors 4).closed, (s.cursors 4).closeCalls) = (1, 0) ∧
+    (s.cursors 4).handed = false ∧ (s.cursors 5).acquired = 0 ∧ s.ring = [] ∧ s.curs.size = 0 ∧ s.panicked = false := by
+  decide
 
 end Logrange.Props.C15
